@@ -940,13 +940,15 @@ func (m *tableMachine) probe1(op TOp, oi int, pre dht.VerifTableSnapshot) (pev t
 	}
 	sender := [20]byte{0xee, byte(oi), 1}
 	if op.FromEntry && len(pre.Entries) > 0 {
-		// a contact the node already knows asks: it is a requester like any other
-		e := pre.Entries[(op.K/7)%len(pre.Entries)]
-		src, sender = &net.UDPAddr{IP: append(net.IP(nil), e.IP...), Port: e.Port}, e.ID
-		m.c.Label("probe-from-known-contact")
-		// its query is heard before the reply is built: that is liveness evidence for its own entry
-		if em := m.model[keyOf(e)]; em != nil && m.modelValid {
-			em.lastQ, em.hasQ = m.vnow, true
+		// a contact the node already knows asks: it is a requester like any other (unless it is
+		// blocklisted: then its datagrams are dropped unread and it cannot ask anything)
+		if e := pre.Entries[(op.K/7)%len(pre.Entries)]; !m.isBlocked(e.IP) {
+			src, sender = &net.UDPAddr{IP: append(net.IP(nil), e.IP...), Port: e.Port}, e.ID
+			m.c.Label("probe-from-known-contact")
+			// its query is heard before the reply is built: that is liveness evidence for its own entry
+			if em := m.model[keyOf(e)]; em != nil && m.modelValid {
+				em.lastQ, em.hasQ = m.vnow, true
+			}
 		}
 	}
 	own, decoy := "target", "info_hash"
